@@ -48,7 +48,7 @@ def run_verus(gen, out_path, seed=0, rlimit=None, extra=None, timeout=900):
     """gen: vx.Generated; writes gen text to out_path, runs verus, returns VerusResult"""
     with open(out_path, 'w', encoding='utf-8') as f:
         f.write(gen.text())
-    cmd = [VERUS, os.path.basename(out_path), '--multiple-errors', '30', '--no-erasure-check',
+    cmd = [VERUS, os.path.basename(out_path), '--multiple-errors', '30', '--no-erasure-check', '--no-trait-conflicts',
            '--triggers-mode', 'silent', '--error-format=json', '--output-json', '--time', '--num-threads', '8']
     if seed:
         cmd += ['--smt-option', 'smt.random_seed=%d' % (seed % 100000)]
